@@ -45,6 +45,7 @@ type Output struct {
 	Funcs       []FuncResult `json:"funcs"`
 	Obligations []OblResult  `json:"obligations"`
 	Unbound     []string     `json:"unbound_contracts"`
+	Skipped     []string     `json:"skipped_unclaimed,omitempty"`
 	LoadS       float64      `json:"load_s"`
 	SolveS      float64      `json:"solve_s"`
 	WallS       float64      `json:"wall_s"`
@@ -61,6 +62,7 @@ func main() {
 	par := flag.Int("j", 12, "parallel queries")
 	lemmas := flag.String("lemmas", "", "comma-separated lemma names to check ('all' = every lemma)")
 	dump := flag.String("dump", "", "dump SSA of function key and exit")
+	onlyFile := flag.String("only", "", "file with obligation names: solve only these (others are generated and listed as skipped)")
 	flag.Parse()
 	t0 := time.Now()
 	eng, err := LoadEngine(*repo, []string{"./pkg/..."}, *specDir)
@@ -109,6 +111,17 @@ func main() {
 			out.Errors = append(out.Errors, "function not found in current tree: "+w)
 		}
 	}
+	only := map[string]bool{}
+	if *onlyFile != "" {
+		if data, err := os.ReadFile(*onlyFile); err == nil {
+			for _, l := range strings.Split(string(data), "\n") {
+				l = strings.TrimSpace(l)
+				if l != "" && !strings.HasPrefix(l, "#") {
+					only[l] = true
+				}
+			}
+		}
+	}
 	type job struct {
 		vc  *VC
 		o   *Obl
@@ -148,6 +161,10 @@ func main() {
 		sort.Strings(fr.Trusted)
 		fr.NObl = len(vc.obls)
 		for i, o := range vc.obls {
+			if len(only) > 0 && !only[shortKey(k)+"/"+o.Name] {
+				out.Skipped = append(out.Skipped, shortKey(k)+"/"+o.Name)
+				continue
+			}
 			jobs = append(jobs, &job{vc: vc, o: o, seq: i, neg: true})
 		}
 		// vacuity: requires satisfiable (cover) and a canary 'false' at every return must be refuted
